@@ -391,8 +391,17 @@ Proof.
     + destruct (update_last_cmid_EInv _ _ _ _ _ _ E Hu) as (E1 & _). eexists. split; [reflexivity|exact E1].
     + eexists. split; [reflexivity|exact E].
   - (* Config *)
-    destruct parsed as [g|]; (eexists; split; [reflexivity|]); [|exact E].
+    destruct (config_in_force _ _ _) as [g|]; (eexists; split; [reflexivity|]); [|exact E].
     eapply EInv_other; [| | |exact E]; reflexivity.
+Qed.
+
+Lemma config_in_force_Some rev p sv g : config_in_force rev p sv = Some g -> p = Some g.
+Proof.
+  unfold config_in_force. destruct p as [g'|]; [|discriminate]. destruct (_ =? _)%N; [intros [= ->]; reflexivity|discriminate].
+Qed.
+Lemma config_in_force_rev rev p sv g : config_in_force rev p sv = Some g -> rev = (g_revision (sv_config sv) + 1)%N.
+Proof.
+  unfold config_in_force. destruct p as [g'|]; [|discriminate]. destruct (N.eqb_spec rev (g_revision (sv_config sv) + 1)); [intros _; assumption|discriminate].
 Qed.
 
 (* ---- histories -------------------------------------------------------------------------------------- *)
